@@ -414,8 +414,10 @@ Proof.
       { induction l0 as [|x l0 IH0]; cbn [fold_left fst snd]; [reflexivity|exact IH0]. }
       rewrite G. split; [reflexivity|discriminate].
     + destruct (at_sim_start_calls k c now m st s) as (a & Ha).
-      destruct (at_sim_start k c now m st s) as [s1 e1]. cbn [fst] in Ha.
-      destruct (IH s1 e1) as (n & Hn & _). exists (S n). rewrite Hn, Ha, map_app. cbn [map firstn]. rewrite <- app_assoc. cbn [app].
+      change (restart_stage k c now m st s) with
+        (fst (at_sim_start k c now m st s), snd (at_sim_start k c now m st s) || negb (active (w_mod (x_w (fst (at_sim_start k c now m st s))) m))).
+      destruct (at_sim_start k c now m st s) as [s1 e1]. cbn [fst snd] in *.
+      destruct (IH s1 (e1 || negb (active (w_mod (x_w s1) m)))) as (n & Hn & _). exists (S n). rewrite Hn, Ha, map_app. cbn [map firstn]. rewrite <- app_assoc. cbn [app].
       split; [reflexivity|]. intros _ _. lia.
 Qed.
 
@@ -447,21 +449,47 @@ Proof.
   - discriminate.
 Qed.
 
+(* a stage deactivates the module only by a panic of its callback *)
+Lemma at_sim_start_deact k c now m stage s :
+  active (w_mod (x_w (fst (at_sim_start k c now m stage s))) m) = false -> active (w_mod (x_w s) m) = true ->
+  In (IPanic m 0) (x_log (fst (at_sim_start k c now m stage s))).
+Proof.
+  unfold at_sim_start.
+  assert (G : forall sp p, (snd (exec k now m (CbStart stage) sp p s) = true ->
+                            In (IPanic m 0) (x_log (fst (exec k now m (CbStart stage) sp p s)))) /\
+                           active (w_mod (x_w (fst (exec k now m (CbStart stage) sp p s))) m) = active (w_mod (x_w s) m)).
+  { intros sp p. split; [|apply (fr_active _ _ _ (exec_Fr k now m (CbStart stage) sp p s))]. unfold exec.
+    match goal with |- context [run_prog false k now m 0 p ?s0] =>
+      pose proof (run_prog_panic_in false k now m 0 p s0) as H; destruct (run_prog false k now m 0 p s0) as [s2 r] end.
+    cbn [fst snd] in H. destruct r; cbn [fst snd]; try discriminate. intros _. apply H. reflexivity. }
+  set (e := if stage =? 0 then exec k now m (CbStart stage) (c_tasks c) (pick_start c (inc (w_mod (x_w s) m))) s
+            else exec k now m (CbStart stage) [] [] s).
+  assert (He : (snd e = true -> In (IPanic m 0) (x_log (fst e))) /\ active (w_mod (x_w (fst e)) m) = active (w_mod (x_w s) m))
+    by (unfold e; destruct (stage =? 0); apply G).
+  destruct e as [s1 p]. cbn [fst snd] in He. destruct He as [He1 He2]. unfold catch. destruct p; cbn [fst snd x_w x_log].
+  - intros _ _. destruct (c_catch c); cbn [fst x_log]; apply He1; reflexivity.
+  - intros Hf Ht. congruence.
+Qed.
+
 Lemma restart_fold_full k c now m : forall l s,
   let r := fold_left (fun (acc : xs * bool) stage => if snd acc then acc else restart_stage k c now m stage (fst acc)) l (s, false) in
-  ~ In (IPanic m 0) (x_log (fst r)) ->
+  active (w_mod (x_w s) m) = true -> ~ In (IPanic m 0) (x_log (fst r)) ->
   map (fun i => match i with ICall m' (CbStart st) t _ => (m', st, t) | _ => (0, 0, 0) end) (start_calls (x_log (fst r))) =
   map (fun i => match i with ICall m' (CbStart st) t _ => (m', st, t) | _ => (0, 0, 0) end) (start_calls (x_log s)) ++
   map (fun st => (m, st, now)) l.
 Proof.
-  induction l as [|st l IH]; intros s r Hn; subst r; cbn [fold_left fst snd] in *; [rewrite app_nil_r; reflexivity|].
+  induction l as [|st l IH]; intros s r Hact Hn; subst r; cbn [fold_left fst snd] in *; [rewrite app_nil_r; reflexivity|].
   destruct (at_sim_start_calls k c now m st s) as (a & Ha).
-  pose proof (at_sim_start_err k c now m st s) as He.
+  pose proof (at_sim_start_err k c now m st s) as He. pose proof (at_sim_start_deact k c now m st s) as Hd.
+  change (restart_stage k c now m st s) with
+    (fst (at_sim_start k c now m st s), snd (at_sim_start k c now m st s) || negb (active (w_mod (x_w (fst (at_sim_start k c now m st s))) m))) in *.
   destruct (at_sim_start k c now m st s) as [s1 e1]. cbn [fst snd] in *.
-  destruct (restart_fold_ok k c now m l s1 e1) as [_ (lx & Hlx & _)].
-  destruct e1.
+  destruct (restart_fold_ok k c now m l s1 (e1 || negb (active (w_mod (x_w s1) m)))) as [_ (lx & Hlx & _)].
+  destruct e1; cbn [orb] in *.
   - exfalso. apply Hn. rewrite Hlx. apply in_or_app. left. apply He. reflexivity.
-  - rewrite (IH s1 Hn), Ha, map_app. cbn [map]. rewrite <- app_assoc. reflexivity.
+  - destruct (active (w_mod (x_w s1) m)) eqn:Ea; cbn [negb] in *.
+    + rewrite (IH s1 Ea Hn), Ha, map_app. cbn [map]. rewrite <- app_assoc. reflexivity.
+    + exfalso. apply Hn. rewrite Hlx. apply in_or_app. left. apply Hd; [reflexivity|exact Hact].
 Qed.
 
 Definition call_key (i : item) : N * N * N :=
@@ -507,6 +535,7 @@ Proof.
   - destruct (restart_fold_calls (nmods sc) (cfg sc m) t m (stage_list (c_stages (cfg sc m))) s0 false) as (n & Hn & Hpos).
     exists n. split; [intros H; apply Hpos; [reflexivity|exact H]|]. exact Hn.
   - intros Hnp. apply (restart_fold_full (nmods sc) (cfg sc m) t m (stage_list (c_stages (cfg sc m))) s0).
+    { unfold s0. cbn [on_w x_w]. rewrite mod_same. reflexivity. }
     intros C. apply Hnp. apply in_or_app. left. apply in_or_app. left. exact C.
 Qed.
 
